@@ -57,51 +57,46 @@ def wrap(ctx):
     ctx.ob("R12.1", "no-other-file-from_raw_fd", not others, "other File::from_raw_fd sites: %s" % others)
     scm = facts.const_int("connection::SCM_MAX_FD")
     ctx.ob("R12.1", "SCM_MAX_FD", scm == 253, "SCM_MAX_FD evaluates to %d" % scm)
-    fn, lv = leaves(ctx, conn.RECV)
+    fn, lv = conn.receive_leaves(ctx)
     n = 0
     for lf in lv:
-        rk = ret_kind(lf)
-        if rk is None or rk[0] != "Ok":
+        rc = conn.os_receive_calls(lf)
+        if not rc:
             continue
-        n += 1
-        rc = [e for e in lf.events if e[0] == "call" and last_seg(e[3]) == "recv_with_fds" and e[3] != conn.RECV]
-        ok = len(rc) == 1
-        if not ok:
-            ctx.fail("R12.1", "one-receive", "recv_with_fds wrapper does not make exactly one receive call on its success path", fn.loc(lf.bb))
+        if len(rc) != 1:
+            ctx.fail("R12.1", "one-receive", "the receive path makes %d receive calls on one path" % len(rc), fn.loc(lf.bb))
             continue
         R = rc[0][4]
+        if result_outcome(lf, R) != "ok" or lf.kind != "return":
+            continue
+        n += 1
         fds = look(R[2][2])
         while fds[0] == "mut":
             fds = look(fds[1])
         ok_arr = fds[0] == "repeat" and fds[2] == scm and fds[1] == ("const", 0)
         ctx.ob("R12.1", "array-size", ok_arr, "the descriptor array handed to the receive call is [0; SCM_MAX_FD] (%s)" % (fds[:3],), fn.loc(rc[0][1]))
-        tup = look(rk[1])
-        ok_t = tup[0] == "tuple" and len(tup[1]) == 2
-        if not ok_t:
-            ctx.fail("R12.1", "result-shape", "recv_with_fds does not return (count, files)", fn.loc(lf.bb))
+        # what is appended to self.files on this path
+        ext = [e for e in lf.events if e[0] == "call" and last_seg(e[3]) in ("extend", "append", "push", "extend_from_slice", "insert", "splice") and self_field(e[4][2][0], "files")]
+        if len(ext) != 1 or last_seg(ext[0][3]) not in ("extend", "append"):
+            ctx.fail("R12.1", "result-shape", "after a successful receive the wrapped descriptors are not appended to self.files exactly once (%s)" % [last_seg(e[3]) for e in ext], fn.loc(lf.bb))
             continue
-        files = look(tup[1][1])
+        files = _strip_mut(ext[0][4][2][1])
         chain = []
         x = files
         while x[0] == "call" and x[2]:
             chain.append(last_seg(x[1]))
-            x = look(x[2][0])
-            while x[0] == "mut":
-                x = look(x[1])
+            x = _strip_mut(x[2][0])
         if chain and chain[0] in ("new", "with_capacity"):
             # the same thing written as a loop: for fd in fds.iter().take(fd_count) { files.push(File::from_raw_fd(*fd)) }
             ok_loop, why = loop_form(ctx, fn, lv, files, R, fds)
             ctx.ob("R12.1", "chain", ok_loop, "files is filled by pushing File::from_raw_fd(*fd) for fd in fds.iter().take(fd_count), in order, and changed by nothing else (%s)" % why, fn.loc(lf.bb))
-            cntb = look(tup[1][0])
-            ok_b = cntb[0] == "field" and cntb[3] == "0" and payload_of(cntb[1]) is not None and norm(payload_of(cntb[1])) == norm(R)
-            ctx.ob("R12.1", "byte-count", ok_b, "the byte count returned is the receive call's", fn.loc(lf.bb))
             continue
-        # collect(map(take(iter(&fds), fd_count), closure))
-        ok_chain = chain == ["collect", "map", "take", "iter"] and x[0] == "repeat"
-        ctx.ob("R12.1", "chain", ok_chain, "files = fds.iter().take(fd_count).map(from_raw_fd).collect() (chain %s)" % chain, fn.loc(lf.bb))
+        # collect(map(take(iter(&fds), fd_count), closure)) -- or the same iterator handed to extend() directly
+        ok_chain = chain in (["collect", "map", "take", "iter"], ["map", "take", "iter"]) and x[0] == "repeat"
+        ctx.ob("R12.1", "chain", ok_chain, "the files appended are fds.iter().take(fd_count).map(from_raw_fd), in order (chain %s)" % chain, fn.loc(lf.bb))
         if ok_chain:
-            mp = look(files[2][0])
-            tk = look(mp[2][0])
+            mp = files if chain[0] == "map" else _strip_mut(files[2][0])
+            tk = _strip_mut(mp[2][0])
             cnt = look(tk[2][1])
             ok_cnt = cnt[0] == "field" and cnt[3] == "1" and payload_of(cnt[1]) is not None and norm(payload_of(cnt[1])) == norm(R)
             ctx.ob("R12.1", "count-is-fd_count", ok_cnt, "take(n) uses the descriptor count the receive call returned", fn.loc(lf.bb))
@@ -113,10 +108,7 @@ def wrap(ctx):
                     r = look(l2.ret())
                     ok_clo = is_call(r, "from_raw_fd") and look(r[2][0]) in (("deref", ("arg", 2)), ("arg", 2)) and len([e for e in l2.events if e[0] == "call"]) == 1
             ctx.ob("R12.1", "closure-wraps-each-once", ok_clo, "the mapped closure is exactly File::from_raw_fd(*fd)", fn.loc(lf.bb))
-        cntb = look(tup[1][0])
-        ok_b = cntb[0] == "field" and cntb[3] == "0" and payload_of(cntb[1]) is not None and norm(payload_of(cntb[1])) == norm(R)
-        ctx.ob("R12.1", "byte-count", ok_b, "the byte count returned is the receive call's", fn.loc(lf.bb))
-    ctx.ob("R12.1", "floor", n == 1, "%d success path(s) of the receive wrapper" % n)
+    ctx.ob("R12.1", "floor", n >= 1, "%d path(s) of the receive path after a successful receive" % n)
 
 
 def _strip_mut(t):
@@ -172,23 +164,23 @@ def loop_form(ctx, fn, lv, files, R, fds):
 
 
 def append(ctx):
-    fn, lv = leaves(ctx, conn.READ_BYTES)
+    """On the receive path: after a successful receive the wrapped descriptors are appended to self.files (which descriptors
+    and in which order: R12.1), also on the path that then reports end-of-stream; a failed receive appends nothing."""
+    fn, lv = conn.receive_leaves(ctx)
     n = 0
     for lf in lv:
-        rc = [e for e in lf.events if e[0] == "call" and e[3] == conn.RECV]
-        if not rc:
+        rc = conn.os_receive_calls(lf)
+        if not rc or lf.kind != "return":
             continue
         received = result_outcome(lf, rc[0][4]) == "ok"
-        ext = [e for e in lf.events if e[0] == "call" and last_seg(e[3]) in ("extend", "append", "push") and self_field(e[4][2][0], "files")]
+        ext = [e for e in lf.events if e[0] == "call" and last_seg(e[3]) in ("extend", "append", "push", "extend_from_slice", "insert", "splice") and self_field(e[4][2][0], "files")]
         rk = ret_kind(lf)
         if received:
             n += 1
-            ok = len(ext) == 1
+            ok = len(ext) == 1 and last_seg(ext[0][3]) in ("extend", "append")
             if ok:
-                a = look(ext[0][4][2][1])
-                while a[0] == "mut":
-                    a = look(a[1])
-                ok = a[0] == "field" and a[3] == "1" and payload_of(a[1]) is not None and norm(payload_of(a[1])) == norm(rc[0][4])
+                # the source derives from this very receive call (R12.1 checks how)
+                ok = any(isinstance(x, tuple) and x and norm(x) == norm(rc[0][4]) for x in subterms(ext[0][4][2][1]))
             closed = rk is not None and rk[0] == "Err" and look(rk[1])[0] == "agg" and look(rk[1])[2] == "ConnectionClosed"
             ctx.ob("R12.2", "appended|%s" % ("eof-path" if closed else "data-path"), ok, "the files just received are appended to self.files%s" % (" before ConnectionClosed is returned" if closed else ""), fn.loc(lf.bb))
         else:
@@ -207,10 +199,15 @@ def move(ctx):
                 pushed = look(e[4][2][1])
                 # the last assignment to <pushed>.files before the push
                 fa = [a for a in lf.events[:i] if a[0] == "assign" and a[3].endswith(".files") and not a[3].startswith("(*_1)")]
-                ok = len(fa) >= 1
+                literal = None
+                if pushed[0] == "agg" and pushed[1] == "request::Request":
+                    # `Request { files, ..pending_request }`: the files component of the literal that is queued
+                    nm = [f["name"] for f in ctx.facts.struct_fields("request::Request")]
+                    literal = pushed[3][nm.index("files")]
+                ok = len(fa) >= 1 or literal is not None
                 chain = []
                 if ok:
-                    v = look(fa[-1][4])
+                    v = look(literal if literal is not None else fa[-1][4])
                     x = v
                     while x[0] == "call" and x[2]:
                         chain.append("mem::take" if x[1] == "std::mem::take" else last_seg(x[1]))
